@@ -90,6 +90,10 @@ def run(tier, seed):
             w16 = w + (w % 2)
             rnd.append({"w": w16, "h": h, "bpp": 16, "comp": False, "data": [rng.randrange(256) for _ in range(2 * w16 * h)]})
             rnd.append({"w": w, "h": h, "bpp": 32, "comp": False, "data": [rng.randrange(256) for _ in range(4 * w * h)]})
+        # seed-independent families: every segment form / every order form at the boundaries of its length encodings
+        nsys = len(rnd)
+        rnd += codec.systematic_planar() + codec.systematic_rle16()
+        nsys = len(rnd) - nsys
         exp = codec.expect(wd, rnd, "rnd")
         kept = []
         dropped = 0
@@ -113,7 +117,7 @@ def run(tier, seed):
                "rule": "EVERY conformant interleaved-RLE encoding of images %s (all order kinds in regular / lite / mega-mega / explicit-run forms, set variants, dithered runs, FG/BG masks, white/black; palette of one colour + black/white in quick) "
                        "and EVERY planar segmentation of images %s, enumerated by TLC with the image each denotes; %d random conformant encodings of images up to 64x16 (all long-run forms) and raw bitmaps incl. all 65536 colour values, "
                        "their expected images computed by TLC (Expect.tla); distinct = distinct (geometry, depth, data)" % (dims16, dims32, len(kept)),
-               "exhaustive_tiny": {"rle16": s16, "planar": s32}, "binding_selftest_rejected": tested, "random_dropped_as_nonconformant": dropped, "exhaustive": True}
+               "exhaustive_tiny": {"rle16": s16, "planar": s32}, "systematic_form_cases": nsys, "binding_selftest_rejected": tested, "random_dropped_as_nonconformant": dropped, "exhaustive": True}
         return v.finish("model_checking", cov, [
             "conformant RLE encoders do not let an order straddle the end of the first scanline (the two published decoder semantics coincide on this class)",
             "uncompressed bitmaps: rows hold a multiple of four bytes, so at 16 bpp only even widths are in the conformant class",
